@@ -152,6 +152,7 @@ pub fn opts_for(prop: &str) -> GenOpts {
             o.nonfused_pct = 15;
         }
         "C02" => {
+            o.in_unwind_pct = 4;
             // operation classes that do not concern this property directly, at a low weight:
             // what they do to the shared state must not disturb what the property states
             o.w_query = 4;
@@ -169,6 +170,7 @@ pub fn opts_for(prop: &str) -> GenOpts {
             o.wrapper_nth_pct = 35;
         }
         "C03" => {
+            o.in_unwind_pct = 4;
             // operation classes that do not concern this property directly, at a low weight:
             // what they do to the shared state must not disturb what the property states
             o.w_query = 4;
@@ -186,6 +188,7 @@ pub fn opts_for(prop: &str) -> GenOpts {
             o.w_skip = 4;
         }
         "C04" => {
+            o.in_unwind_pct = 4;
             // operation classes that do not concern this property directly, at a low weight:
             // what they do to the shared state must not disturb what the property states
             o.zero_pct = 3;
@@ -218,6 +221,7 @@ pub fn opts_for(prop: &str) -> GenOpts {
             o.w_skip = 5;
         }
         "C06" => {
+            o.in_unwind_pct = 4;
             // operation classes that do not concern this property directly, at a low weight:
             // what they do to the shared state must not disturb what the property states
             o.w_composite = 6;
@@ -230,6 +234,7 @@ pub fn opts_for(prop: &str) -> GenOpts {
             o.max_ops = 6;
         }
         "C07" => {
+            o.in_unwind_pct = 4;
             // operation classes that do not concern this property directly, at a low weight:
             // what they do to the shared state must not disturb what the property states
             o.w_composite = 6;
@@ -261,6 +266,7 @@ pub fn opts_for(prop: &str) -> GenOpts {
             o.drop_panic_pct = 8;
         }
         "C09" => {
+            o.in_unwind_pct = 4;
             o.w_skip = 6;
             o.w_stop = 8;
             o.w_composite = 8;
@@ -276,6 +282,7 @@ pub fn opts_for(prop: &str) -> GenOpts {
             o.pre_pct = 20;
         }
         "C10" => {
+            o.in_unwind_pct = 4;
             // operation classes that do not concern this property directly, at a low weight:
             // what they do to the shared state must not disturb what the property states
             o.w_composite = 6;
@@ -289,6 +296,7 @@ pub fn opts_for(prop: &str) -> GenOpts {
             o.drain = false;
         }
         "C11" => {
+            o.in_unwind_pct = 4;
             // operation classes that do not concern this property directly, at a low weight:
             // what they do to the shared state must not disturb what the property states
             o.w_composite = 5;
@@ -323,6 +331,7 @@ pub fn opts_for(prop: &str) -> GenOpts {
             o.stale_pct = 20;
         }
         "C13" => {
+            o.in_unwind_pct = 4;
             // "take the rest" chunk sizes at the edge of usize (known-size kinds only)
             o.huge_pct = 4;
             o.kinds = vec![
@@ -389,6 +398,7 @@ pub fn opts_for(prop: &str) -> GenOpts {
             o.closure_panic_pct = 10;
         }
         "C17" => {
+            o.in_unwind_pct = 4;
             // operation classes that do not concern this property directly, at a low weight:
             // what they do to the shared state must not disturb what the property states
             o.huge_pct = 4;
